@@ -31,7 +31,7 @@ ASSUMPTIONS = [
 ]
 
 KINDS = ["p2pkh", "p2pkh-uncompressed", "p2sh-ms", "p2wpkh", "p2sh-p2wpkh", "p2wsh-ms", "p2sh-p2wsh-ms", "p2tr-key", "p2tr-key-tree",
-         "p2tr-script-p2pk", "p2tr-ms-single", "p2tr-ms-multi"]
+         "p2tr-script-p2pk", "p2tr-ms-single", "p2tr-ms-multi", "p2tr-key-annex", "p2tr-script-p2pk-annex"]
 
 MUTATION_CLASSES = [
     "drop-sig", "blank-sig", "foreign-key-sig", "junk-der-sig", "reorder-sigs", "duplicate-sig", "flip-sighash-byte",
@@ -300,6 +300,30 @@ def build_signed(rng, kind, small):
         sig = tx.get_sig_taproot(index, leafkey, ext_flag=1)
         ti.witness = Witness([sig, leaf.tap_script.raw_serialize(), cb.serialize()])
         ok = tx.verify_input(index)
+    elif kind == "p2tr-key-annex":
+        # key path spend carrying an annex: the digest commits to the annex, so it is in place while signing
+        priv = keys(1)[0]
+        tx = finish(priv.point.p2tr_script())
+        annex = b"\x50" + rng.randbytes(rng.choice([0, 1, 40, 300]))
+        ti = tx.tx_ins[index]
+        ti.witness = Witness([b"\x00" * 64, annex])
+        ht = rng.choice([0, 1, 0x81] + ([3, 0x83] if index < n_out else [2]))
+        sig = tx.get_sig_taproot(index, priv.tweaked_key(), hash_type=ht)
+        ti.witness = Witness([sig, annex])
+        meta["secrets"] = [priv.tweaked_key().secret]
+        ok = tx.verify_input(index)
+    elif kind == "p2tr-script-p2pk-annex":
+        internal, leafkey, other = keys(3)
+        leaf = TapLeaf(P2PKTapScript(leafkey.point))
+        tree = TapBranch(leaf, TapLeaf(P2PKTapScript(other.point))) if rng.random() < 0.6 else leaf
+        tx = finish(internal.point.p2tr_script(tree.hash()))
+        cb = tree.control_block(internal.point, leaf)
+        annex = b"\x50" + rng.randbytes(rng.choice([0, 2, 64]))
+        ti = tx.tx_ins[index]
+        ti.witness = Witness([leaf.tap_script.raw_serialize(), cb.serialize(), annex])
+        sig = tx.get_sig_taproot(index, leafkey, ext_flag=1, hash_type=rng.choice([0, 1, 0x82]))
+        ti.witness = Witness([sig, leaf.tap_script.raw_serialize(), cb.serialize(), annex])
+        ok = tx.verify_input(index)
     elif kind in ("p2tr-ms-single", "p2tr-ms-multi"):
         n = rng.randrange(2, nmax + 1)
         k = rng.randrange(1, n + 1)
@@ -355,8 +379,10 @@ def sig_slots(model, index, kind):
     out = []
     if kind.startswith("p2tr"):
         wit = model["ins"][index]["witness"]
-        for p, it in enumerate(wit):
-            if len(it) in (64, 65) and not (kind != "p2tr-key" and kind != "p2tr-key-tree" and p >= len(wit) - 2):
+        n = len(wit) - (1 if sh.annex_of([bytes(x) for x in wit]) is not None else 0)
+        last = n if kind.startswith("p2tr-key") else n - 2  # script path: script and control block are not signatures
+        for p, it in enumerate(wit[:max(last, 0)]):
+            if len(it) in (64, 65):
                 out.append(("wit", p))
         return out
     for p, c in enumerate(ss_cmds(model, index)):
@@ -563,7 +589,8 @@ def lib_verify(model, spent, index):
 def note_rule(ctx, kind):
     r = {"p2sh-ms": ["rule:p2sh"], "p2wpkh": ["rule:p2wpkh"], "p2sh-p2wpkh": ["rule:p2sh", "rule:p2wpkh"], "p2wsh-ms": ["rule:p2wsh"],
          "p2sh-p2wsh-ms": ["rule:p2sh", "rule:p2wsh"], "p2tr-key": ["rule:p2tr-key"], "p2tr-key-tree": ["rule:p2tr-key"],
-         "p2tr-script-p2pk": ["rule:p2tr-script"], "p2tr-ms-single": ["rule:p2tr-script"], "p2tr-ms-multi": ["rule:p2tr-script"]}.get(kind, [])
+         "p2tr-script-p2pk": ["rule:p2tr-script"], "p2tr-ms-single": ["rule:p2tr-script"], "p2tr-ms-multi": ["rule:p2tr-script"],
+         "p2tr-key-annex": ["rule:p2tr-key", "rule:annex"], "p2tr-script-p2pk-annex": ["rule:p2tr-script", "rule:annex"]}.get(kind, [])
     for x in r:
         ctx.count(x)
 
